@@ -183,9 +183,10 @@ def coded(i, j, k):
     return 1000.0 * i + 10.0 * j + 0.5 * k
 
 
-VCODE = {"c11s": 0, "c12s": 1, "bm_VRH": 2, "v_p": 3, "c44t": 1, "G_V": 4, "v": 5}
+VCODE = {"c11s": 0, "c12s": 1, "bm_VRH": 2, "v_p": 3, "c44t": 1, "G_V": 4, "v": 5, "bm_V": 6, "v_s": 7}
 FNAMES = {"c11s": "c11s_tp_gpa.txt", "c12s": "c12s_tp_gpa.txt", "c44t": "c44t_tp_gpa.txt",
-          "bm_VRH": "bm_VRH_tp_gpa.txt", "G_V": "G_V_tp_gpa.txt", "v_p": "v_p_tp_km_s.txt", "v": "v_tp_ang3.txt"}
+          "bm_VRH": "bm_VRH_tp_gpa.txt", "G_V": "G_V_tp_gpa.txt", "v_p": "v_p_tp_km_s.txt", "v": "v_tp_ang3.txt",
+          "bm_V": "bm_V_tp_gpa.txt", "v_s": "v_s_tp_km_s.txt"}
 
 
 def first_nearest(xs, y):
@@ -204,7 +205,8 @@ def run(ctx):
     ctx.rule = ("directories of (T,P) tables written through CijPressureBaseInterface.write_table (values: exactly "
                 "printable codes 1000*i+10*j+0.5*k, and a smooth analytic function), %d grids; cij extract with -T / -P "
                 "on grid values, between them, at exact halves (ties), below and above the range, 1-4 variables, "
-                "with/without header, a directory with two files matching one variable; cij extract-geotherm with "
+                "with/without header, a directory with two files matching one variable, directories holding variables whose "
+                "names are prefixes of other variables (v/v_p/v_s, bm_V/bm_VRH); cij extract-geotherm with "
                 "paths through nodes and between nodes, default and renamed geotherm columns, extra pass-through "
                 "columns; a case is non-trivial if it is a distinct (directory, command line)" % (2 if quick else 5))
     ctx.trusted += [
@@ -403,6 +405,8 @@ def run(ctx):
     for gi, (T, P) in enumerate(GR[: (2 if quick else 5)]):
         tag = "coded%d" % gi
         vars_all = ["c11s", "c12s", "bm_VRH", "v_p"]
+        if gi % 2 == 1:      # a full output directory: names that are prefixes of other names (v / v_p / v_s, bm_V / bm_VRH)
+            vars_all = vars_all + ["v", "bm_V", "v_s"]
         d, listing, files = scenario(tag, T, P, vars_all, "coded",
                                      decoy=("c12s", "c12s_tp_zzz.txt") if gi == 0 else None)
         defs.append("Definition files_%s : list (string * tbl) := [%s]." % (
@@ -427,6 +431,9 @@ def run(ctx):
             else:
                 y = round(ctx.rng.uniform(P[0] - 2 * dP, P[-1] + 2 * dP), ctx.rng.choice([0, 1, 3]))
                 do_extract(tag, d, listing, files, vs, True, y)
+        if gi % 2 == 1:
+            do_extract(tag, d, listing, files, ["v", "bm_V"], False, T[2])
+            do_extract(tag, d, listing, files, ["bm_V", "v_s", "v"], True, P[1])
         # a variable without a table
         do_extract(tag, d, listing, files, ["c11s", "G_V"], False, T[1])
         # geotherm on the coded (bilinear) table: exact everywhere, through nodes and between
@@ -441,6 +448,9 @@ def run(ctx):
         do_geotherm(tag, d, listing, files, ctx.rng.sample(vars_all, 2),
                     [("T", [t for t, _ in rpts]), ("z", [1.5 * n for n in range(len(rpts))]), ("P", [p for _, p in rpts])],
                     fn=lin, tol=1e-6)
+        if gi % 2 == 1:
+            do_geotherm(tag, d, listing, files, ["v", "bm_V"],
+                        [("P", [p for _, p in pts]), ("T", [t for t, _ in pts])], fn=lin, tol=1e-6)
         do_geotherm(tag, d, listing, files, ["bm_VRH"],
                     [("depth", [7.5 * n for n in range(len(pts))]), ("TEMP", [t for t, _ in pts]), ("PRES", [p for _, p in pts])],
                     tcol="PRES", pcol="TEMP", fn=lin, tol=1e-6, T_name="TEMP", P_name="PRES")
